@@ -283,18 +283,23 @@ func (s *Schema) collectUserTypes() {
 		return
 	}
 
-	s.usedUserTypes = collectUserTypes(node)
+	s.usedUserTypes = collectUserTypes(node, s.inner.TypesList())
 }
 
-func collectUserTypes(node internalSchema.Node) []string {
+func collectUserTypes(node internalSchema.Node, types map[string]internalSchema.Type) []string {
 	c := &userTypesCollector{
 		alreadyProcessed: map[string]struct{}{},
+		unnamedTypes:     types,
 	}
 	c.collect(node)
 	return c.userTypes
 }
 
 type userTypesCollector struct {
+	// unnamedTypes the types of the schema itself: the unnamed types made from
+	// the rule-sets of "or" rules are among them.
+	unnamedTypes map[string]internalSchema.Type
+
 	alreadyProcessed map[string]struct{}
 	userTypes        []string
 }
@@ -338,6 +343,12 @@ func (c *userTypesCollector) collectUserTypesFromTypesListConstraint(node intern
 	for _, name := range list.Names() {
 		if name != "" && name[0] == '@' {
 			c.addType(name)
+			continue
+		}
+		// An unnamed type made from a rule-set (ex: {type: "@cat", nullable: true})
+		// can refer to a user type as well.
+		if t, ok := c.unnamedTypes[name]; ok && t.Schema() != nil && t.Schema().RootNode() != nil {
+			c.collect(t.Schema().RootNode())
 		}
 	}
 }
